@@ -26,6 +26,10 @@ CHECKS = {
             "generated-input search (several sites with different bindings; plus sides that rename, wrap, swap, drop and duplicate metavariables) against reference instantiation of the '+' tree",
             "At every reference site the output must equal the '+' pattern instantiated with that site's bindings (compared as canonical trees, with a print/parse round trip of the expected tree as tie-breaker); inadmissible replacements must leave the site alone.",
             MODEL_NOTE, "DESIGN.md §4 C03"),
+    "C04": ("exploration",
+            "exhaustive small-scope enumeration (all patterns over {atom, atom, metavariable, metavariable, elision} up to a length bound x all lists up to length 5, per list kind) against a 30-line backtracking list model, plus generated elision-heavy mined patterns against the reference matcher",
+            "Within the stated bound every (pattern, list) pair of every list kind is executed through patch.Parse/Apply and compared with the list model (match iff some choice of runs exists; shortest-first runs; elided elements reproduced in place) - exhaustive inside the bound, sampled (part b) outside it. Claimed as exploration because the bound is small.",
+            MODEL_NOTE + " The list model is 30 lines (c04Model).", "DESIGN.md §4 C04"),
     "C05": ("exploration",
             "generated-input search on large real hosts; whole-file canonical-tree comparison of gopatch's output with the reference rewrite, imports as multiset",
             "Whole output files (up to 400 lines of real standard-library code around 1..n sites) are compared with the reference rewrite; any difference outside the rewritten fragments fails the check.",
